@@ -35,7 +35,7 @@ RULE = ('Thread programs P1 build with a slow callable, P2 edits inside/outside 
         'increasing per thread. Non-trivial: >=1 preemption happened; distinct = hash of the switch '
         'sequence (thread, file:line).')
 RULE_ADDITIONS = (' Added by the rounds of seeded changes (DESIGN 9.7): ' +
-                  'history ids for every program; fresh shared callable with annotation tags (P5); pyref leaves at thread-specific paths (P4); P8: worker started with a copied context inside suspend_tracking() (absolute oracle); fresh builtin subclass in P5 (dense P5 x P5 grid); P9: one decorated suspend_tracking helper used inside and outside a suspended block; successive shard (threads one after another, reused idents, thread-local state left behind); line-covering preemption points for a program against itself')
+                  'history ids for every program; fresh shared callable with annotation tags (P5); pyref leaves at thread-specific paths (P4); P8: worker started with a copied context inside suspend_tracking() (absolute oracle); fresh builtin subclass in P5 (dense P5 x P5 grid); P9: one decorated suspend_tracking helper used inside and outside a suspended block; successive shard (threads one after another, reused idents, thread-local state left behind); line-covering preemption points for a program against itself; history locations compared with the solo run')
 RULE = RULE + RULE_ADDITIONS
 ASSUMPTIONS = [
     'exhaustive only up to the stated preemption bound for the listed programs at line '
